@@ -28,7 +28,7 @@ CFGS_QUICK = [("ai", "MP4", "IP_A"), ("at", "MP4", "IP_A"), ("bi", "MP4", "IP_B"
 CFGS_THOROUGH = CFGS_QUICK + [("dt", "MP5", "IP_D"), ("ei", "MP5", "IP_E")]
 
 
-LOOSE = ("TraceFibreIrqLoose", "TraceFibreIrqLoose.cfg", lambda r: len(r.get("isr", [])) <= 4)
+LOOSE = ("TraceFibreIrqLoose", "TraceFibreIrqLoose.cfg", lambda r: len(r.get("isr", [])) <= 4, 2500)
 
 
 def conv(name, args):
